@@ -522,6 +522,13 @@ def receiver_chains(body, op, depth=0):
     if f:
         return [(f, [])]
     out = []
+    # a captured value read back out of a closure environment / tuple built in this body (`(*env).0` after a closure was
+    # inlined): continue with the operand that was captured
+    fi = next((e["f"] for e in p["p"] if isinstance(e, dict) and "f" in e), None)
+    if fi is not None:
+        ag = _agg_of_local(body, p["l"])
+        if ag is not None and ag.get("kind") in ("closure", "tuple") and fi < len(ag["ops"]):
+            return receiver_chains(body, ag["ops"][fi], depth + 1)
     for d in body.defs.get(p["l"], []):
         if d[0] == "stmt":
             rv = d[3]
@@ -543,6 +550,22 @@ def receiver_chains(body, op, depth=0):
                 for (fld, ch) in receiver_chains(body, t["args"][0], depth + 1):
                     out.append((fld, ch + [fn_name(fr)]))
     return out
+
+
+def _agg_of_local(body, l, depth=0):
+    """the aggregate a local holds (followed through whole-value moves and borrows), if it has a single definition chain"""
+    if depth > 6:
+        return None
+    ds = [d for d in body.defs.get(l, []) if d[0] in ("stmt", "call")]
+    if len(ds) != 1 or ds[0][0] != "stmt":
+        return None
+    rv = ds[0][3]
+    if "agg" in rv:
+        return rv["agg"]
+    q = rv.get("ref") or (op_place(rv["use"]) if "use" in rv else None)
+    if q is not None and not [e for e in q["p"] if e != "deref"]:
+        return _agg_of_local(body, q["l"], depth + 1)
+    return None
 
 
 def receiver_chain(body, op, depth=0):
